@@ -32,7 +32,10 @@ def _impl(case):
                 i = sc.allocate_stream()
                 res.append(('id', i))
                 if k == 'AR':
-                    sc.register_stream(i, object())
+                    try:
+                        sc.register_stream(i, object())
+                    except RuntimeError:
+                        pass   # e.g. id 0 handed out: reported by the oracle
             except RSocketStreamAllocationFailure:
                 res.append(('fail',))
         elif k == 'R':
